@@ -13,6 +13,7 @@ import Drivers.MeshOps
 import Drivers.Cavity
 import Drivers.Guards
 import Drivers.Metric
+import Drivers.Par
 
 /-! `refdrv <driver> [args]` : dispatch to a line-protocol driver. One match arm per driver, on one line. -/
 
@@ -31,6 +32,7 @@ def main (args : List String) : IO UInt32 := do
   | "cavity" :: rest => Drivers.Cavity.run rest
   | "guards" :: rest => Drivers.Guards.run rest
   | "metric" :: rest => Drivers.Metric.run rest
+  | "par" :: rest => Drivers.Par.run rest
   | _ =>
     IO.eprintln s!"refdrv: unknown driver {args}"
     return 2
